@@ -12,7 +12,7 @@ import (
 // C04 — DHT KV operations stay linearizable while the ring changes (bounded).
 //
 // One client operation races one membership event on a ring of real LocalNodes over real MemoryKV (symbolic ids and
-// key hash): the client thread issues Put(k, v) through an arbitrary member (re-issuing it while the answer is a
+// key hash): the client thread issues one operation on key k (Put of a new value, Delete, or PrefixAppend of a child) through an arbitrary member (re-issuing it while the answer is a
 // retryable error, at most RETRY times), the membership thread runs the real Join or Leave. All interleavings at
 // synchronisation points within the preemption bound are explored. The operation must either be acknowledged — and
 // then, once both threads are done and the ring has run R maintenance rounds, every member reads v — or fail with a
@@ -43,6 +43,19 @@ func zzC04(event int) {
 	val := []byte{rt.U8("new")}
 	rt.Assume(val[0] != old[0])
 
+	// the racing client operation: overwrite the value, delete it, or append a prefix child
+	op := rt.Choose("op", rt.Bound("OPS"))
+	rt.TagInt("op", op)
+	issue := func() error {
+		switch op {
+		case 0:
+			return w.nodes[entry].Put(ctx, key, val)
+		case 1:
+			return w.nodes[entry].Delete(ctx, key)
+		default:
+			return w.nodes[entry].PrefixAppend(ctx, key, []byte("x"))
+		}
+	}
 	var wg sync.WaitGroup
 	var opErr error
 	acked := false
@@ -51,7 +64,7 @@ func zzC04(event int) {
 	go func() {
 		defer wg.Done()
 		for try := 0; try <= rt.Bound("RETRY"); try++ {
-			opErr = w.nodes[entry].Put(ctx, key, val)
+			opErr = issue()
 			if opErr == nil {
 				acked = true
 				return
@@ -85,9 +98,17 @@ func zzC04(event int) {
 	for r := 0; r < rt.Bound("R"); r++ {
 		w.round(0)
 	}
-	want := old
+	// expected register and set after the race: an acknowledged operation is in effect, a refused one is not
+	wantVal, wantChild := old, false
 	if acked {
-		want = val
+		switch op {
+		case 0:
+			wantVal = val
+		case 1:
+			wantVal = nil
+		default:
+			wantChild = true
+		}
 	}
 	for i, node := range w.nodes {
 		if !w.present[i] {
@@ -96,10 +117,20 @@ func zzC04(event int) {
 		got, err := node.Get(ctx, key)
 		rt.Assert(err == nil, "read-after-quiescence-succeeds")
 		if err == nil {
+			okv := len(got) == len(wantVal) && (len(wantVal) == 0 || got[0] == wantVal[0])
 			if acked {
-				rt.Assert(len(got) == 1 && got[0] == want[0], "acknowledged-write-is-in-effect")
+				rt.Assert(okv, "acknowledged-write-is-in-effect")
 			} else {
-				rt.Assert(len(got) == 1 && got[0] == want[0], "refused-write-has-no-effect")
+				rt.Assert(okv, "refused-write-has-no-effect")
+			}
+		}
+		has, err := node.PrefixContains(ctx, key, []byte("x"))
+		rt.Assert(err == nil, "read-after-quiescence-succeeds")
+		if err == nil {
+			if acked {
+				rt.Assert(has == wantChild, "acknowledged-write-is-in-effect")
+			} else {
+				rt.Assert(has == wantChild, "refused-write-has-no-effect")
 			}
 		}
 	}
